@@ -20,7 +20,7 @@ T(sp, tx) == [sep |-> sp, text |-> tx]
 S0 == [sep |-> "", sep2 |-> "", tok |-> <<>>, bs |-> FALSE, paren |-> FALSE, nr |-> TRUE, skip |-> FALSE,
        dollar |-> FALSE, pli |-> FALSE, made |-> "", semi |-> FALSE, res |-> <<>>, stop |-> FALSE]
 
-NameChar(c) == c \in {"a", "b", "e", "_", "0", "1", "9", "A"}
+NameChar(c) == c \in {"a", "b", "e", "_", "0", "1", "2", "9", "A"}
 \* libs::re::re_contains(&token, r"^[a-zA-Z0-9_]+=.*$")
 IsEnvTok(t) == \E k \in 1..Len(t) : t[k] = "=" /\ k > 1 /\ \A j \in 1..(k - 1) : NameChar(t[j])
 
